@@ -112,6 +112,50 @@ def constructed_adts(body):
     return out
 
 
+def mutated_adts(facts, body):
+    """existing-type state a body can change through a `&mut` argument: paths of the ADTs T such that an argument has type
+    `&mut T` and the body either writes a field of it or takes a `&mut` to (part of) it (which it may hand out)"""
+    args = {}
+    for i in range(1, body.get('argc', 0) + 1):
+        t = facts.ty(body['locals'][i])
+        if t.get('k') == 'ref' and t.get('mut'):
+            inner = facts.ty(t.get('inner'))
+            if inner.get('k') == 'adt':
+                args[i] = inner['path']
+    if not args:
+        return set()
+    # locals that are copies / reborrows of such an argument
+    alias = dict(args)
+    changed = True
+    while changed:
+        changed = False
+        for blk in body.get('blocks') or []:
+            for st in blk['s']:
+                if st[0] != '=' or st[1][1]:
+                    continue
+                rv = st[2]
+                src = None
+                if rv[0] == 'use' and rv[1][0] in ('cp', 'mv') and not rv[1][1][1]:
+                    src = rv[1][1][0]
+                elif rv[0] == 'ref' and rv[1] and rv[2][1] == ['*']:
+                    src = rv[2][0]
+                if src in alias and st[1][0] not in alias:
+                    alias[st[1][0]] = alias[src]
+                    changed = True
+    out = set()
+    for blk in body.get('blocks') or []:
+        for st in blk['s']:
+            if st[0] != '=':
+                continue
+            pl = st[1]
+            if pl[0] in alias and pl[1] and pl[1][0] == '*' and len(pl[1]) > 1:
+                out.add(alias[pl[0]])                     # *arg.field = ..
+            rv = st[2]
+            if rv[0] == 'ref' and rv[1] and rv[2][0] in alias and rv[2][1] and rv[2][1][0] == '*' and len(rv[2][1]) > 1:
+                out.add(alias[rv[2][0]])                  # &mut (*arg).field
+    return out
+
+
 def check_uncovered(run, prop, loader, configs=('std-debug',)):
     evaluated = {fn for r, fn, _, _ in run.instances if not NOT_SPECIFIC.search(r)}
     inlined = set(examined.INLINED)
@@ -139,6 +183,12 @@ def check_uncovered(run, prop, loader, configs=('std-debug',)):
                     run.unproven('coverage.new-constructor', p, cfg, 'a new function reachable from outside the crate builds a value of the existing type %s, and no rule of this '
                                  'check describes it: the invariants established where that type is constructed today are not established here' % ', '.join(built),
                                  where=b.get('span'))
+                # ... or that can CHANGE a value of such a type from outside (a new setter, a `_mut` accessor handing out internal
+                # state): the invariants the rules maintain across the known mutators are not maintained here
+                touched = sorted(mutated_adts(facts, b) & set((ref.get('#meta') or {}).get('adts') or {})) if not built else []
+                if touched and (b.get('pub') is True or p.startswith('<')) and b.get('kind') != 'Closure':
+                    run.unproven('coverage.new-mutator', p, cfg, 'a new function reachable from outside the crate writes, or hands out `&mut` access to, the fields of the existing '
+                                 'type %s, and no rule of this check describes it' % ', '.join(touched), where=b.get('span'))
                 continue
             n += 1
             # callees that are not inlined (recursion, depth) are vouched for separately: each is examined by a rule of its
